@@ -380,16 +380,35 @@ theorem text_colors_collected {p : Path} {d : Doc} {k : Comp} (hk : k ∈ emitte
   · left; left
     exact ⟨k, h, by rcases hv with hv | hv <;> simp [hv]⟩
   · left; right
-    exact ⟨k, h, hv⟩
+    exact ⟨k, h, Or.inl hv⟩
   · right
-    exact ⟨k, h, hv⟩
+    exact ⟨k, h, Or.inl hv⟩
 
-theorem border_colors_collected {d : Doc} {k : Comp} (hk : k ∈ d.bodies) {a : Attr} (ha : a ∈ k.borderColors)
+/-- every component of the document: bodies, text components (title … page footer), column headers -/
+def components (d : Doc) : List Comp := d.bodies ++ d.texts ++ d.headers
+
+theorem emitters_components (p : Path) (d : Doc) {k : Comp} (h : k ∈ emitters p d) : k ∈ components d := by
+  unfold components
+  simp only [List.mem_append]
+  rcases emitters_sub p d h with h | h | h
+  · exact Or.inl (Or.inl h)
+  · exact Or.inl (Or.inr h)
+  · exact Or.inr h
+
+/-- the border colours of EVERY component are collected (repo fix: formerly the bodies' only) -/
+theorem border_colors_collected {d : Doc} {k : Comp} (hk : k ∈ components d) {a : Attr} (ha : a ∈ k.borderColors)
     {v : String} (hv : v ∈ a.colors) : v ∈ collect d := by
   rw [collect, mem_dedup]
   simp only [Doc.allColors, List.mem_append, List.mem_flatMap]
-  left; left
-  exact ⟨k, hk, Or.inr ⟨a, ha, hv⟩⟩
+  unfold components at hk
+  simp only [List.mem_append] at hk
+  rcases hk with (h | h) | h
+  · left; left
+    exact ⟨k, h, Or.inr ⟨a, ha, hv⟩⟩
+  · left; right
+    exact ⟨k, h, Or.inr ⟨a, ha, hv⟩⟩
+  · right
+    exact ⟨k, h, Or.inr ⟨a, ha, hv⟩⟩
 
 /-! ## resolution of one reference against the table of a (re-enumerated) collected list -/
 
